@@ -515,6 +515,18 @@ func (m *machine) Step(op Op) error {
 		l := n.impl.(at.List)
 		var gc bool
 		var gi int
+		if op.A%7 == 1 {
+			// a value of a type the list can never hold (some of them not even comparable): simply absent
+			fp := foreignProbes[op.B%len(foreignProbes)]
+			if err := m.expectPanic(fmt.Sprintf("Contains/IndexOf(%T)", fp), false, func() { gc = l.Contains(fp); gi = l.IndexOf(fp) }); err != nil {
+				return err
+			}
+			if gc || gi != -1 {
+				return errf("step %d: list#%d: Contains(%T) = %v, IndexOf = %d for a value no list can hold", m.step, n.id, fp, gc, gi)
+			}
+			m.st.Count("contains.foreign_probe")
+			break
+		}
 		if err := m.expectPanic("Contains/IndexOf", false, func() { gc = l.Contains(probe.goValue()); gi = l.IndexOf(probe.goValue()) }); err != nil {
 			return err
 		}
@@ -834,6 +846,20 @@ func (m *machine) Step(op Op) error {
 		}
 		o := n.impl.(at.Object)
 		var gc bool
+		if op.A%7 == 1 {
+			fp := foreignProbes[op.B%len(foreignProbes)]
+			if err := m.expectPanic(fmt.Sprintf("Contains(%T)", fp), false, func() { gc = o.Contains(fp) }); err != nil {
+				return err
+			}
+			if gc {
+				return errf("step %d: object#%d: Contains(%T) = true for a value no object can hold", m.step, n.id, fp)
+			}
+			if err := m.expectPanic(fmt.Sprintf("KeyOf(%T)", fp), true, func() { o.KeyOf(fp) }); err != nil {
+				return err
+			}
+			m.st.Count("contains.foreign_probe")
+			break
+		}
 		if err := m.expectPanic("Contains", false, func() { gc = o.Contains(probe.goValue()) }); err != nil {
 			return err
 		}
@@ -955,9 +981,13 @@ func sortDomain(es []mval) bool {
 	return true
 }
 
+// foreignProbes are arguments for Contains / IndexOf / KeyOf whose types no container can hold; several
+// are not comparable (a lookup that hashes or compares them carelessly panics).
+var foreignProbes = []any{[]int{1}, map[string]int{"a": 1}, func() {}, struct{ S []int }{}, [2][]int{}, new(int), int8(1), uint(1), float32(1), []any{}, map[string]any{}, struct{}{}, 'x', complex(1, 0)}
+
 // ---- program generators ---------------------------------------------------------
 
-var keyPool = []string{"", "a", "b", "c", "a.b", "#1", "k\"q", "line\nbreak", "ключ", "😀", strings.Repeat("long", 20), ".", "a#0", " ", "é", "ÿ", "caf\u00e9", "\ufffd"}
+var keyPool = []string{"", "a", "b", "c", "a.b", "#1", "k\"q", "line\nbreak", "ключ", "😀", strings.Repeat("long", 20), ".", "a#0", " ", "é", "ÿ", "caf\u00e9", "\ufffd", "a*", "?", "[a-c]", "*"}
 
 func genKeyFromPool(t *rapid.T) string {
 	if oneIn(t, 10, "freshkey") {
